@@ -10,11 +10,14 @@ package sonic
 //@ func ext:syscall.Read
 //@   trusted
 //@   ensures err == nil ==> 0 <= n && n <= len(p)
+//@   // the kernel reports errnos, never one of this library's own error values
+//@   ensures err != sonicerrors.ErrWouldBlock && err != io.EOF
 //@   modifies mem(p)
 
 //@ func ext:syscall.Write
 //@   trusted
 //@   ensures err == nil ==> 0 <= n && n <= len(p)
+//@   ensures err != sonicerrors.ErrWouldBlock && err != io.EOF
 //@   modifies nothing
 
 //@ pred fInv(f *file) =
@@ -44,10 +47,12 @@ package sonic
 //@   prop C02
 //@   requires fInv(f)
 //@   remember after call syscall.Read: again = result1 == errno(11)
+//@   remember after call syscall.Read: other = result1 != nil && result1 != errno(11)
 //@   remember after call syscall.Read: kzero = result1 == nil && result0 == 0
 //@   remember after call syscall.Read: kn := result0
 //@   // EAGAIN/EWOULDBLOCK (11 on linux) is "would block", not an error of the stream; 0 bytes is end of stream
 //@   ensures [would-block] again ==> result1 == sonicerrors.ErrWouldBlock
+//@   ensures [real-errors-kept] other ==> result1 != nil && result1 != sonicerrors.ErrWouldBlock
 //@   ensures [eof] kzero ==> result1 == io.EOF
 //@   ensures [count] result1 == nil ==> result0 == kn
 //@   // the count is what the kernel moved: positive on success, zero with an error
@@ -59,9 +64,11 @@ package sonic
 //@   prop C02
 //@   requires fInv(f)
 //@   remember after call syscall.Write: again = result1 == errno(11)
+//@   remember after call syscall.Write: other = result1 != nil && result1 != errno(11)
 //@   remember after call syscall.Write: kzero = result1 == nil && result0 == 0
 //@   remember after call syscall.Write: kn := result0
 //@   ensures [would-block] again ==> result1 == sonicerrors.ErrWouldBlock
+//@   ensures [real-errors-kept] other ==> result1 != nil && result1 != sonicerrors.ErrWouldBlock
 //@   ensures [eof] kzero ==> result1 == io.EOF
 //@   ensures [count] result1 == nil ==> result0 == kn
 //@   ensures [ok] result1 == nil ==> 0 < result0 && result0 <= len(b)
@@ -90,16 +97,16 @@ package sonic
 //@   assert call cb: old(readSoFar) <= arg1 && arg1 <= len(b) && (arg0 == nil && readAll ==> arg1 == len(b)) && (arg0 == nil && !readAll ==> arg1 > old(readSoFar))
 //@   remember after call file).Read: moved = result1 == nil
 //@   // success is reported only if the transfer attempted now succeeded
-//@   assert call cb: [C02 no-swallowed-error] arg0 == nil ==> moved
+//@   assert call cb: [C02,C19 no-swallowed-error] arg0 == nil ==> moved
 //@   remember after call file).Read: failed = result1 != nil && result1 != sonicerrors.ErrWouldBlock
 //@   // would-block is waited for, never reported; any other error is reported now, not waited on
-//@   assert call cb: [C02 would-block-not-reported] arg0 != sonicerrors.ErrWouldBlock
+//@   assert call cb: [C02,C19 would-block-not-reported] arg0 != sonicerrors.ErrWouldBlock
 //@   consumes cb unless armedR(f)
 //@   ensures [armed] invoked(cb) == 0 ==> f.slot.Handlers[0] == f.readReactor.onRead &&
 //@           readSoFar <= f.readReactor.readSoFar && f.readReactor.readSoFar <= len(b) &&
 //@           f.readReactor.b == b && f.readReactor.readAll == readAll
 //@   ensures [C02,C19 work-left] invoked(cb) == 0 && old(readSoFar) < len(b) ==> f.readReactor.readSoFar < len(b)
-//@   ensures [C02 errors-reported] failed ==> invoked(cb) == 1
+//@   ensures [C02,C19 errors-reported] failed ==> invoked(cb) == 1
 //@   ensures [depth] f.ioc.Dispatched == old(f.ioc.Dispatched)
 
 //@ func fnparam:(*fileReadReactor).onRead.cb
@@ -163,10 +170,10 @@ package sonic
 //@   assert call cb: old(wroteSoFar) <= arg1 && arg1 <= len(b) && (arg0 == nil && writeAll ==> arg1 == len(b)) && (arg0 == nil && !writeAll ==> arg1 > old(wroteSoFar))
 //@   remember after call file).Write: moved = result1 == nil
 //@   // success is reported only if the transfer attempted now succeeded
-//@   assert call cb: [C02 no-swallowed-error] arg0 == nil ==> moved
+//@   assert call cb: [C02,C19 no-swallowed-error] arg0 == nil ==> moved
 //@   remember after call file).Write: failed = result1 != nil && result1 != sonicerrors.ErrWouldBlock
 //@   // would-block is waited for, never reported; any other error is reported now, not waited on
-//@   assert call cb: [C02 would-block-not-reported] arg0 != sonicerrors.ErrWouldBlock
+//@   assert call cb: [C02,C19 would-block-not-reported] arg0 != sonicerrors.ErrWouldBlock
 //@   consumes cb unless armedW(f)
 //@   ensures [armed] invoked(cb) == 0 ==> f.slot.Handlers[1] == f.writeReactor.onWrite &&
 //@           wroteSoFar <= f.writeReactor.wroteSoFar && f.writeReactor.wroteSoFar <= len(b) &&
@@ -174,7 +181,7 @@ package sonic
 //@   // a continuation is armed only while bytes remain: a WriteAll that has moved everything is
 //@   // reported done now, not after waiting for writability to write nothing (which reads as EOF)
 //@   ensures [C02,C19 work-left] invoked(cb) == 0 && old(wroteSoFar) < len(b) ==> f.writeReactor.wroteSoFar < len(b)
-//@   ensures [C02 errors-reported] failed ==> invoked(cb) == 1
+//@   ensures [C02,C19 errors-reported] failed ==> invoked(cb) == 1
 //@   ensures [depth] f.ioc.Dispatched == old(f.ioc.Dispatched)
 
 
